@@ -245,9 +245,12 @@ func runC09Case(c *Ctx, idx int) *CaseResult {
 		cr.inconclusive("generated program rejected by the builder or the store/load pipeline (judged by C17/C12)")
 		return cr
 	}
+	libRemoved := map[string]bool{}
 	if r.Intn(4) == 0 && len(prog.Rules) > 2 {
 		// a library with a removed rule
-		lib.RemoveRuleEntry(prog.Rules[r.Intn(len(prog.Rules))].Name, kbName, kbVer)
+		gone := prog.Rules[r.Intn(len(prog.Rules))].Name
+		lib.RemoveRuleEntry(gone, kbName, kbVer)
+		libRemoved[gone] = true
 		cr.inc("libraries_with_a_removed_rule")
 	}
 	blueprint := lib.GetKnowledgeBase(kbName, kbVer)
@@ -258,7 +261,7 @@ func runC09Case(c *Ctx, idx int) *CaseResult {
 		return cr
 	}
 	instB, _ := NewInstance(lib)
-	if d := DiffCanon(CanonKB(instA, true), CanonKB(blueprint, true)); d != "" {
+	if d := DiffCanon(CanonKB(instA, false), CanonKB(blueprint, false)); d != "" {
 		cr.violate("the instance's AST differs from the blueprint's: "+d, map[string]interface{}{"grl": text, "pipeline": pipeline})
 		return cr
 	}
@@ -364,6 +367,39 @@ func runC09Case(c *Ctx, idx int) *CaseResult {
 					return cr
 				}
 			}
+		}
+	}
+	// ---- (v) the library loses a rule after it has handed out instances: the next instance
+	// must still be created and behave like the remaining rules
+	if len(prog.Rules)-len(libRemoved) > 1 {
+		lr := c.Rng(idx, 20)
+		victim := prog.Rules[lr.Intn(len(prog.Rules))].Name
+		lib.RemoveRuleEntry(victim, kbName, kbVer)
+		libRemoved[victim] = true
+		for k := 0; k < 2; k++ {
+			inst, err := NewInstance(lib)
+			if err != nil {
+				cr.violate(fmt.Sprintf("NewKnowledgeBaseInstance failed after rule %s was removed from a library that had already handed out instances: %v", victim, err), map[string]interface{}{"grl": text, "pipeline": pipeline})
+				return cr
+			}
+			init := GenState(c.Rng(idx, 21+k))
+			cfg := RunCfg{MaxCycle: uint64(6 + 10*k)}
+			res := Run(inst, prog, CopyStateLive(init), cfg)
+			cr.Evals++
+			a := Analyze(prog, res, cfg, libRemoved)
+			var vs []Violation
+			if res.Panic != nil {
+				vs = append(vs, Violation{"C09", 0, "", fmt.Sprintf("panic: %v", res.Panic)})
+			}
+			vs = append(vs, MonFiresOnlyWhenTrue(a)...)
+			vs = append(vs, MonCandidatesComplete(a)...)
+			vs = append(vs, MonMaxSalience(a)...)
+			vs = append(vs, MonReplayEqual(a)...)
+			if len(vs) > 0 {
+				cr.violate(fmt.Sprintf("an instance created after rule %s was removed from the library does not behave like the remaining rules: %s", victim, joinViol(vs[:min(2, len(vs))])), caseDetail(text, pipeline, init, res, vs))
+				return cr
+			}
+			cr.inc("instances_after_library_removal")
 		}
 	}
 	// overlap: did at least two goroutines work at the same time?
